@@ -4,6 +4,8 @@ import FcpptProofs.C18.Cyclic
 import FcpptProofs.C18.Spiral
 import FcpptProofs.C18.Diamond
 import FcpptProofs.C18.Iter
+import FcpptProofs.C18.Base
+import FcpptProofs.C18.SpiralT
 /-!
 # C18 — property theorems: ranges and iterators enumerate exactly their documented sequence
 
@@ -141,6 +143,88 @@ theorem range_size_correct (t : IntTy) (hb : 1 ≤ t.bits) (n : Nat) (h : (n : I
     · simp only [IntTy.hi, IntTy.toUnsigned] at h ⊢
       split at h <;> simp <;> omega
 
+/-- `range::empty` of an int range: exactly when `e ≤ b`; `range::singular`: exactly when it has one element (the increment
+inside `singular` is never applied at the maximum of the type) -/
+theorem int_range_empty_singular (t : IntTy) (hb : 1 ≤ t.bits) (b e : Int) (hbr : t.InRange b) (her : t.InRange e) :
+    ((makeIntRange b e).empty = true ↔ e ≤ b) ∧
+      (makeIntRange b e).singular t = .ok (decide (Spec.intRangeCount b e = 1)) := by
+  unfold makeIntRange IntRange.make IntRange.singular IntRange.empty IntIter.equal Spec.intRangeCount
+  by_cases h : e < b
+  · simp only [h, if_true]
+    refine ⟨by simp; omega, ?_⟩
+    have : ¬ (e - b).toNat = 1 := by omega
+    simp [this]
+  · simp only [h, if_false]
+    refine ⟨by simp; omega, ?_⟩
+    by_cases hbe : b = e
+    · subst hbe; simp
+    · have hne : ¬ b = e := hbe
+      simp only [decide_eq_true_eq, hne, if_false]
+      rw [incr_ok t hb hbr.1 (by have := her.2; omega)]
+      have hiff : b + 1 = e ↔ (e - b).toNat = 1 := by omega
+      simp only [hiff]
+
+/-! ## `int_iterator` / `enum_::iterator` used directly, the operations inherited from `iterator::base` -/
+
+/-- `a == b` on `int_iterator`s (and `enum_::iterator`s) is equality of the values, `a != b` its negation -/
+theorem int_iter_equal_iff (a b : Int) : (IntIter.equal a b = true ↔ a = b) ∧ (IntIter.notEqual a b = true ↔ a ≠ b) := by
+  simp [IntIter.equal, IntIter.notEqual]
+
+/-- `it++` returns the old iterator and moves to the next value -/
+theorem int_iter_post_incr (t : IntTy) (hb : 1 ≤ t.bits) (v : Int) (hlo : t.lo ≤ v) (hhi : v + 1 ≤ t.hi) :
+    IntIter.postIncr t v = .ok (v, v + 1) := by
+  unfold IntIter.postIncr; rw [incr_ok t hb hlo hhi]
+
+/-- at the maximum of a narrow or unsigned type `it++` wraps to the minimum (defined behaviour) … -/
+theorem int_iter_post_incr_wraps (t : IntTy) (hb : 1 ≤ t.bits) (htr : t.trapping = false) :
+    IntIter.postIncr t t.hi = .ok (t.hi, t.lo) := by
+  unfold IntIter.postIncr; rw [incr_hi_wraps t hb htr]
+
+/-- … and for `int` / `long` it is undefined -/
+theorem int_iter_post_incr_overflow (t : IntTy) (htr : t.trapping = true) :
+    IntIter.postIncr t t.hi = .error .signedOverflow := by
+  unfold IntIter.postIncr; rw [incr_hi_traps t htr]
+
+/-- `swap` exchanges the two iterators; swapping twice (member swap, then the free function) restores them; swapping an
+iterator with itself leaves it unchanged -/
+theorem swap_pair_spec {α : Type} (a b : α) :
+    swapPair (a, b) = (b, a) ∧ swapPair (swapPair (a, b)) = (a, b) ∧ swapPair (a, a) = (a, a) := ⟨rfl, rfl, rfl⟩
+
+/-- an `iterator::range` of two `int_iterator`s `b ≤ e` is the same sequence as `make_int_range(b, e)` -/
+theorem int_iter_range_elems (t : IntTy) (hb : 1 ≤ t.bits) (b e : Int) (hbr : t.InRange b) (her : t.InRange e) (hbe : b ≤ e) (f : Nat) :
+    intIterRange t b e (f + Spec.intRangeCount b e + 1) = .ok (Spec.intRange b e) := by
+  have := int_range_elems t hb b e hbr her f
+  have hne : ¬ e < b := by omega
+  simpa [makeIntRange, IntRange.make, IntRange.elems, intIterRange, hne] using this
+
+/-- … but there is **no clamp**: for an inverted pair `e < b` over a narrow or unsigned type the loop runs up to the
+maximum, wraps around and continues from the minimum up to `e - 1` -/
+theorem int_iter_range_inverted_wraps (t : IntTy) (hb : 1 ≤ t.bits) (htr : t.trapping = false) (b e : Int)
+    (hbr : t.InRange b) (her : t.InRange e) (hlt : e < b) (f : Nat) :
+    intIterRange t b e (f + ((t.hi - b).toNat + 1) + ((e - t.lo).toNat + 1)) =
+      .ok (Spec.iota b ((t.hi - b).toNat + 1) ++ Spec.iota t.lo (e - t.lo).toNat) := by
+  obtain ⟨hb1, hb2⟩ := hbr
+  obtain ⟨he1, he2⟩ := her
+  unfold intIterRange
+  -- b .. hi - 1
+  have h1 := intLoop_prefix t hb e (t.hi - b).toNat b hb1 (by omega) (fun x h1 h2 => by omega) (f + ((e - t.lo).toNat + 1) + 1)
+  rw [show b + ((t.hi - b).toNat : Int) = t.hi by omega] at h1
+  rw [show f + ((t.hi - b).toNat + 1) + ((e - t.lo).toNat + 1) = f + ((e - t.lo).toNat + 1) + 1 + (t.hi - b).toNat by omega, h1]
+  -- the step at hi wraps to lo
+  have hne : ¬ t.hi = e := by omega
+  rw [intLoop_succ, if_neg hne, incr_hi_wraps t hb htr]
+  -- lo .. e - 1
+  have h2 := intLoop_spec t hb (e - t.lo).toNat t.lo (Int.le_refl _) (by omega) f
+  rw [show t.lo + ((e - t.lo).toNat : Int) = e by omega] at h2
+  simp only [show f + ((e - t.lo).toNat + 1) = f + (e - t.lo).toNat + 1 by omega, h2, prependI]
+  congr 1
+  have happ : ∀ (n : Nat) (x : Int), Spec.iota x (n + 1) = Spec.iota x n ++ [x + n] := by
+    intro n; induction n with
+    | zero => intro x; simp [Spec.iota]
+    | succ n ih => intro x; rw [Spec.iota, ih (x + 1)]; simp [Spec.iota]; omega
+  rw [happ, show b + (((t.hi - b).toNat : Nat) : Int) = t.hi by omega]
+  simp
+
 /-! ## enum ranges -/
 
 theorem enum_range_spec_mem (s e x : Int) : x ∈ Spec.enumRange s e ↔ s ≤ x ∧ x ≤ e := by
@@ -185,6 +269,22 @@ theorem enum_make_range_elems (w n : Nat) (hw : 1 ≤ w) (hn : (n : Int) < 2 ^ w
   have := enum_make_range_start_elems w n hw hn 0 (Int.le_refl _) (by omega) f
   simpa [makeRange] using this
 
+/-- an inverted pair (`start > end + 1`, a precondition violation of `make_range_start_end`) is **not** empty: the loop runs to
+the maximum of the `size_type`, wraps and stops at `end` — mirrored and exercised, outside the property -/
+theorem enum_range_inverted_wraps (w : Nat) (hw : 1 ≤ w) (s e : Int) (he0 : 0 ≤ e) (hes : e + 1 < s) (hs : s < 2 ^ w) (f : Nat) :
+    (makeRangeStartEnd w s e).elems w (f + ((2 ^ w - 1 - s).toNat + 1) + ((e + 1).toNat + 1)) =
+      .ok (Spec.iota s ((2 ^ w - 1 - s).toNat + 1) ++ Spec.iota 0 (e + 1).toNat) := by
+  have hlo : (sizeTy w).lo = 0 := by simp [sizeTy, IntTy.lo]
+  have hhi : (sizeTy w).hi = 2 ^ w - 1 := by simp [sizeTy, IntTy.hi]
+  have hb : 1 ≤ (sizeTy w).bits := hw
+  have htr : (sizeTy w).trapping = false := by simp [sizeTy, IntTy.trapping]
+  unfold makeRangeStartEnd EnumRange.elems
+  simp only
+  rw [IntTy.wrap_of_inRange (sizeTy w) hb ⟨by omega, by omega⟩]
+  have := int_iter_range_inverted_wraps (sizeTy w) hb htr s (e + 1) ⟨by omega, by omega⟩ ⟨by omega, by omega⟩ (by omega) f
+  rw [hhi, hlo] at this
+  simpa [intIterRange] using this
+
 /-- the boundary of that guard: an enum that uses *every* value of its `size_type` (`2^w` enumerators) gets an
 **empty** `make_range()`, because `max + 1` wraps to `0`.  Outside the property's quantifier (≤ 9 enumerators);
 recorded so that the guard `n < 2^w` above is seen to be sharp. -/
@@ -193,6 +293,37 @@ theorem enum_make_range_full_width_empty (w : Nat) (f : Nat) :
   have h : (sizeTy w).wrap (2 ^ w) = 0 := by
     simp [IntTy.wrap, sizeTy]
   simp [makeRange, makeRangeStart, makeRangeStartEnd, EnumRange.elems, h, intLoop_succ]
+
+/-- `range::empty` / `range::singular` of an enum sub-range `[s, e]` -/
+theorem enum_range_empty_singular (w : Nat) (hw : 1 ≤ w) (s e : Int) (hs : 0 ≤ s) (hse : s ≤ e + 1) (he : e + 1 < 2 ^ w) :
+    ((makeRangeStartEnd w s e).empty = true ↔ s = e + 1) ∧ (makeRangeStartEnd w s e).singular w = .ok (decide (s = e)) := by
+  have hlo : (sizeTy w).lo = 0 := by simp [sizeTy, IntTy.lo]
+  have hhi : (sizeTy w).hi = 2 ^ w - 1 := by simp [sizeTy, IntTy.hi]
+  have hb : 1 ≤ (sizeTy w).bits := hw
+  unfold makeRangeStartEnd EnumRange.singular EnumRange.empty IntIter.equal
+  simp only
+  rw [IntTy.wrap_of_inRange (sizeTy w) hb ⟨by omega, by omega⟩]
+  refine ⟨by simp, ?_⟩
+  by_cases h : s = e + 1
+  · simp [h]; omega
+  · simp only [decide_eq_true_eq, h, if_false]
+    rw [incr_ok (sizeTy w) hb (by omega) (by omega)]
+    have hiff : s + 1 = e + 1 ↔ s = e := by omega
+    simp only [hiff]
+
+/-- `enum_::range<E>(b, e)` constructed directly from two `size_type` values is the half-open `[b, e)` -/
+theorem enum_range_direct_elems (w : Nat) (hw : 1 ≤ w) (b e : Int) (hb0 : 0 ≤ b) (hbe : b ≤ e) (he : e < 2 ^ w) (f : Nat) :
+    (EnumRange.mk b e).elems w (f + (e - b).toNat + 1) = .ok (Spec.iota b (e - b).toNat) ∧
+      (EnumRange.mk b e).size w = e - b := by
+  have hlo : (sizeTy w).lo = 0 := by simp [sizeTy, IntTy.lo]
+  have hhi : (sizeTy w).hi = 2 ^ w - 1 := by simp [sizeTy, IntTy.hi]
+  have hb : 1 ≤ (sizeTy w).bits := hw
+  constructor
+  · unfold EnumRange.elems
+    have := intLoop_spec (sizeTy w) hb (e - b).toNat b (by omega) (by omega) f
+    rwa [show b + ((e - b).toNat : Int) = e by omega] at this
+  · unfold EnumRange.size
+    exact IntTy.wrap_of_inRange (sizeTy w) hb ⟨by simp only []; omega, by simp only []; omega⟩
 
 /-! ## cyclic iterator -/
 
@@ -231,7 +362,7 @@ theorem advance_position (c : Cyc) (hlt : c.first < c.second) (n : Int) :
     c.advance n = .ok { c with it := c.first + Spec.cycOffset (c.second - c.first) (c.it - c.first) n } :=
   Cyc.advance_eq c n hlt
 
-/-- **whole histories**: after any sequence of `++`, `--`, `+= n`, `-= n` the iterator is inside its boundary, the boundary
+/-- **whole histories**: after any sequence of `++` / `it++`, `--` / `it--`, `+= n`, `-= n` (`CycOp.sub`) the iterator is inside its boundary, the boundary
 is unchanged, and the position is the start offset plus the net displacement, modulo the boundary length -/
 theorem history_position (c : Cyc) (h : c.Inside) (ops : List CycOp) :
     ∃ c', c.run ops = .ok c' ∧ c'.Inside ∧ c'.first = c.first ∧ c'.second = c.second ∧
@@ -259,6 +390,108 @@ theorem decrement_increment (c : Cyc) (h : c.Inside) : c.increment.decrement = c
 /-- an empty boundary is a precondition violation of `advance` (division by zero), not a silent result -/
 theorem advance_empty_boundary (c : Cyc) (h : c.first = c.second) (n : Int) : c.advance n = .error .divZero := by
   unfold Cyc.advance; simp [h]
+
+/-! ### every other public member of `cyclic_iterator` / `iterator::base` -/
+
+/-- `==` compares the positions only — two iterators at the same position with different boundaries are equal -/
+theorem cyc_equal_iff (a b : Cyc) : a.equal b = true ↔ a.it = b.it := by simp [Cyc.equal]
+
+theorem cyc_equal_ignores_boundary (i f₁ s₁ f₂ s₂ : Int) : (Cyc.mk i f₁ s₁).equal (Cyc.mk i f₂ s₂) = true := by simp [Cyc.equal]
+
+/-- `a - b` is the difference of the positions; the ordering operators are the ordering of the positions -/
+theorem cyc_order (a b : Cyc) :
+    a.sub b = a.it - b.it ∧ (a.lt b = true ↔ a.it < b.it) ∧ (a.gt b = true ↔ b.it < a.it) ∧
+      (a.le b = true ↔ a.it ≤ b.it) ∧ (a.ge b = true ↔ b.it ≤ a.it) := by
+  simp [Cyc.sub, Cyc.lt, Cyc.gt, Cyc.le, Cyc.ge, Cyc.distanceTo]
+
+/-- exactly one of `a < b`, `a == b`, `a > b` holds; on the same object: `a == a`, `a <= a`, `a >= a`, not `a < a`, `a - a = 0` -/
+theorem cyc_trichotomy (a b : Cyc) :
+    (a.lt b = true ∧ a.equal b = false ∧ a.gt b = false) ∨ (a.lt b = false ∧ a.equal b = true ∧ a.gt b = false) ∨
+      (a.lt b = false ∧ a.equal b = false ∧ a.gt b = true) := by
+  simp [Cyc.sub, Cyc.lt, Cyc.gt, Cyc.equal, Cyc.distanceTo]; omega
+
+theorem cyc_self_comparison (a : Cyc) :
+    a.equal a = true ∧ a.lt a = false ∧ a.gt a = false ∧ a.le a = true ∧ a.ge a = true ∧ a.sub a = 0 := by
+  simp [Cyc.sub, Cyc.lt, Cyc.gt, Cyc.le, Cyc.ge, Cyc.equal, Cyc.distanceTo]
+
+/-- the difference between an advanced iterator and its origin -/
+theorem cyc_sub_advance (c : Cyc) (h : c.Inside) (n : Int) :
+    ∃ c', c.advance n = .ok c' ∧ c'.sub c = Spec.cycOffset (c.second - c.first) (c.it - c.first) n - (c.it - c.first) := by
+  have hlt : c.first < c.second := by have := h.1; have := h.2; omega
+  refine ⟨_, advance_position c hlt n, ?_⟩
+  simp [Cyc.sub, Cyc.distanceTo]; omega
+
+/-- **constructed outside or at the end of the boundary**: `advance` brings any position back inside
+(`advance_inside` / `advance_position` need no hypothesis on `it`); in particular `it = boundary end` and `+= 0` gives the first position -/
+theorem advance_zero_at_end (c : Cyc) (hlt : c.first < c.second) (h : c.it = c.second) :
+    c.advance 0 = .ok { c with it := c.first } := by
+  rw [advance_position c hlt 0]
+  simp [Spec.cycOffset, h]
+
+/-- … but `++` does not: at or right of the end of the boundary it only moves further away (the precondition of the class) -/
+theorem increment_right_of_boundary_escapes (c : Cyc) (h : c.second ≤ c.it) (k : Nat) :
+    iter Cyc.increment k c = { c with it := c.it + k } := Cyc.iter_increment_escapes c h k
+
+/-- left of a non-empty boundary `++` walks up to the first position (and is inside from then on) -/
+theorem increment_left_of_boundary_enters (c : Cyc) (hlt : c.first < c.second) (h : c.it ≤ c.first) :
+    iter Cyc.increment (c.first - c.it).toNat c = { c with it := c.first } ∧ ({ c with it := c.first } : Cyc).Inside := by
+  constructor
+  · rw [Cyc.iter_increment_enters c hlt _ (by omega)]; congr 1; omega
+  · exact ⟨Int.le_refl _, hlt⟩
+
+/-- `--` at the end of a non-empty boundary steps onto its last position -/
+theorem decrement_at_end_enters (c : Cyc) (hlt : c.first < c.second) (h : c.it = c.second) :
+    c.decrement = { c with it := c.second - 1 } ∧ c.decrement.Inside := by
+  have hne : ¬ c.it = c.first := by omega
+  have : c.decrement = { c with it := c.second - 1 } := by unfold Cyc.decrement; simp [hne]; omega
+  rw [this]; exact ⟨rfl, by simp [Cyc.Inside]; omega⟩
+
+/-- **empty boundary** (also the state of a default-constructed iterator): `++` and `--` leave it, `advance` divides by zero -/
+theorem empty_boundary_steps (c : Cyc) (h : c.first = c.second) (hit : c.it = c.first) (n : Int) :
+    c.increment.it = c.it + 1 ∧ c.decrement.it = c.first - 1 ∧ c.advance n = .error .divZero := by
+  refine ⟨?_, ?_, advance_empty_boundary c h n⟩
+  · have : ¬ c.it + 1 = c.second := by omega
+    unfold Cyc.increment; simp [this]
+  · unfold Cyc.decrement; simp [hit, h]
+
+theorem default_ctor_empty (n : Int) :
+    Cyc.default.first = Cyc.default.second ∧ Cyc.default.it = Cyc.default.first ∧ Cyc.default.advance n = .error .divZero :=
+  ⟨rfl, rfl, advance_empty_boundary _ rfl n⟩
+
+/-- **converting constructor / assignment** (`cyclic_iterator<iterator>` → `cyclic_iterator<const_iterator>`, compiles since
+fix e9807ba): position and boundary are kept, whatever the target held before — so everything proved above about
+`advance`, `++`, `--` and whole histories holds for the converted iterator as for its source -/
+theorem convert_keeps (c self : Cyc) (n : Int) (ops : List CycOp) :
+    Cyc.convert c = c ∧ Cyc.assignFrom self c = c ∧ (Cyc.convert c).advance n = c.advance n ∧
+      (Cyc.assignFrom self c).run ops = c.run ops := by
+  cases c; exact ⟨rfl, rfl, rfl, rfl⟩
+
+/-- **`ptrdiff_t` arithmetic**: as long as `offset + n` is representable `advance` is the mathematical one … -/
+theorem advance64_eq (c : Cyc) (n : Int) (h : ptrdiffTy.InRange (c.it - c.first + n)) : c.advance64 n = c.advance n := by
+  unfold Cyc.advance64; simp [h]
+
+/-- … so for an iterator inside its boundary every `n` up to `2^63 - 1 - offset` (either sign) lands on `(offset + n) mod size` -/
+theorem advance64_position (c : Cyc) (h : c.Inside) (n : Int) (hn : ptrdiffTy.InRange (c.it - c.first + n)) :
+    c.advance64 n = .ok { c with it := c.first + Spec.cycOffset (c.second - c.first) (c.it - c.first) n } := by
+  have hlt : c.first < c.second := by have := h.1; have := h.2; omega
+  rw [advance64_eq c n hn, advance_position c hlt n]
+
+/-- beyond that the addition overflows: undefined behaviour, reported (UBSan reports the same in the harness, op `cycl`) -/
+theorem advance64_overflow (c : Cyc) (n : Int) (h : ¬ ptrdiffTy.InRange (c.it - c.first + n)) :
+    c.advance64 n = .error .signedOverflow := by
+  unfold Cyc.advance64; simp [h]
+
+/-- `it -= n` is `it += -n`: the same position as `advance (-n)`, except that `-n` itself overflows for the minimum -/
+theorem sub_assign64 (c : Cyc) (n : Int) :
+    (ptrdiffTy.InRange (-n) → ptrdiffTy.InRange (c.it - c.first - n) → c.subAssign64 n = c.advance (-n)) ∧
+      c.subAssign64 (-(2 ^ 63)) = .error .signedOverflow := by
+  constructor
+  · intro h1 h2
+    unfold Cyc.subAssign64
+    rw [if_neg (by simpa using h1), advance64_eq c (-n) (by rwa [show c.it - c.first + -n = c.it - c.first - n by omega])]
+  · unfold Cyc.subAssign64
+    have : ¬ ptrdiffTy.InRange (-(-(2 ^ 63 : Int))) := by decide
+    rw [if_pos this]
 
 /-! ## grid spiral range -/
 
@@ -310,6 +543,91 @@ theorem spiral_range_visits_diamond_once (c : Pos) (D : Nat) (f : Nat) :
   refine ⟨Spec.spiral c D, ?_, fun p => spiral_visits_diamond_once c p D, spiral_rings_nondecreasing c D⟩
   rw [← ringsLen_eq]; exact spiral_range_eq c D f
 
+/-! ### `spiral_iterator` used directly, and the spiral in the arithmetic of its coordinate type -/
+
+/-- `==` on spiral iterators compares the current position only -/
+theorem spiral_iter_equal_iff (a b : Spiral) : a.equal b = true ↔ a.cur = b.cur := by simp [Spiral.equal]
+
+/-- `max_dist` does not influence the walk of a `spiral_iterator` (it is stored and never read): an iterator keeps spiralling
+outwards past the `end()` of the range it came from -/
+theorem spiral_iter_ignores_max_dist (c : Pos) (d₁ d₂ : Int) (k : Nat) :
+    (iter Spiral.increment k (Spiral.init c d₁)).cur = (iter Spiral.increment k (Spiral.init c d₂)).cur := by
+  have hinc : ∀ (s : Spiral) (m : Int), ({ s with maxDist := m } : Spiral).increment = { s.increment with maxDist := m } := by
+    intro s m
+    unfold Spiral.increment
+    by_cases h1 : s.step = s.curDist
+    · by_cases h2 : (⟨s.dir.y, -s.dir.x⟩ : Pos) = ⟨-1, 1⟩ <;> simp [h1, h2]
+    · simp [h1]
+  have hit : ∀ (k : Nat) (s : Spiral) (m : Int),
+      iter Spiral.increment k { s with maxDist := m } = { iter Spiral.increment k s with maxDist := m } := by
+    intro k; induction k with
+    | zero => intro s m; rfl
+    | succ k ih => intro s m; simp only [iter]; rw [hinc, ih]
+  have e : iter Spiral.increment k (Spiral.init c d₂) = { iter Spiral.increment k (Spiral.init c d₁) with maxDist := d₂ } :=
+    hit k (Spiral.init c d₁) d₂
+  rw [e]
+
+/-- the `k`-th increment of `spiral_iterator(c, D)` stands on the `k`-th point of the documented sequence; it compares equal
+to `end()` for the first time after exactly `2·D·(D+1) + 1` increments -/
+theorem spiral_iter_steps (c : Pos) (D : Nat) :
+    (∀ k, k < 2 * D * (D + 1) + 1 →
+        (Spec.spiral c D)[k]? = some (iter Spiral.increment k (Spiral.init c D)).cur ∧
+        (iter Spiral.increment k (Spiral.init c D)).cur ≠ ⟨c.x - 1, c.y - (D : Int)⟩) ∧
+      (iter Spiral.increment (2 * D * (D + 1) + 1) (Spiral.init c D)).cur = ⟨c.x - 1, c.y - (D : Int)⟩ := by
+  have hr := spiral_range_eq c D 0
+  unfold spiralRange at hr
+  obtain ⟨h1, h2⟩ := spiralLoop_states _ _ _ _ hr
+  rw [spiral_length] at h1 h2
+  refine ⟨fun k hk => ⟨h1 k hk, fun hcon => ?_⟩, h2⟩
+  have hmem : (iter Spiral.increment k (Spiral.init c D)).cur ∈ Spec.spiral c D := List.mem_of_getElem? (h1 k hk)
+  rw [hcon, spiral_mem, spiral_end_is_first_of_next_ring, manhattan_posOf c (D + 1) 0 1 (by omega) (by omega) (by omega)] at hmem
+  omega
+
+/-- **coordinates near the limits of the coordinate type**: if the box of radius `D + 1` around the origin fits into the type
+(`D + 1`, not `D`: the iterator steps onto `end()`, the first point of ring `D + 1`), no operation of the walk overflows and the
+range is the documented sequence — so every statement above holds for `int` / `long` coordinates up to the limits -/
+theorem spiral_range_typed_eq (t : IntTy) (hb : 1 ≤ t.bits) (c : Pos) (D : Nat)
+    (hx : t.lo ≤ c.x - (D + 1) ∧ c.x + (D + 1) ≤ t.hi) (hy : t.lo ≤ c.y - (D + 1) ∧ c.y + (D + 1) ≤ t.hi) (f : Nat) :
+    spiralRangeT t c D (f + Spec.ringsLen D + 2) = .ok (Spec.spiral c D) := by
+  have hr := spiral_range_eq c D f
+  unfold spiralRange at hr
+  obtain ⟨h1, _⟩ := spiralLoop_states _ _ _ _ hr
+  unfold spiralRangeT
+  rw [addT_ok t hb (a := c.x) (b := -1) ⟨by omega, by omega⟩, addT_ok t hb (a := c.y) (b := -(D : Int)) ⟨by omega, by omega⟩]
+  simp only []
+  rw [show c.x + -1 = c.x - 1 by omega, show c.y + -(D : Int) = c.y - D by omega]
+  apply spiralLoopT_eq t _ _ _ _ hr
+  intro k hk
+  obtain ⟨d, seg, tt, hst, h3, htd, h0, h1'⟩ := reach_conc c D k
+  have hmem : (iter Spiral.increment k (Spiral.init c D)).cur ∈ Spec.spiral c D := List.mem_of_getElem? (h1 k hk)
+  have hd : d ≤ D := by
+    by_cases hd0 : d = 0
+    · omega
+    · rw [hst, spiral_mem] at hmem
+      have : (conc c D d seg tt).cur = c + posOf d seg tt := rfl
+      rw [this, manhattan_posOf c d seg tt h3 (by omega) htd] at hmem
+      exact hmem
+  rw [hst]
+  exact incrementT_conc t hb c D D d seg tt hd htd hx hy
+
+/-- closer to a limit `end()` itself is not representable: for `int` / `long` undefined behaviour, reported as such -/
+theorem spiral_range_typed_end_overflow (t : IntTy) (htr : t.trapping = true) (c : Pos) (D : Int)
+    (h : ¬ t.InRange (c.x - 1) ∨ ¬ t.InRange (c.y - D)) (fuel : Nat) :
+    spiralRangeT t c D fuel = .error .signedOverflow := by
+  unfold spiralRangeT
+  by_cases hx : t.InRange (c.x + -1)
+  · have hy : ¬ t.InRange (c.y + -D) := by
+      rcases h with h | h
+      · exact absurd (by rwa [show c.x - 1 = c.x + -1 by omega]) h
+      · rwa [show c.y + -D = c.y - D by omega]
+    cases hax : addT t c.x (-1) with
+    | error e =>
+      have := hax
+      unfold addT at this
+      simp [htr, hx] at this
+    | ok ex => simp only [addT_overflow t htr hy]
+  · simp only [addT_overflow t htr hx]
+
 /-! ## neighbour helpers -/
 
 /-- `neumann_neighbors(p)` returns exactly the documented four positions, in the documented order, when `p` is not on
@@ -327,6 +645,53 @@ theorem moore_eq (t : IntTy) (hb : 1 ≤ t.bits) (p : Pos) (hx : t.lo < p.x ∧ 
   rw [pred_ok t hb (by omega) (by omega), incr_ok t hb (by omega) (by omega),
     pred_ok t hb (by omega) (by omega), incr_ok t hb (by omega) (by omega)]
   rfl
+
+/-- for unsigned (and promoted) coordinate types there is no undefined behaviour at all: every neighbour coordinate is the
+mathematical one reduced modulo `2^bits`, wherever `p` is ("no range checking is performed") -/
+theorem neighbours_wrapping (t : IntTy) (htr : t.trapping = false) (p : Pos) :
+    neumann t p = .ok [⟨t.wrap (p.x - 1), p.y⟩, ⟨t.wrap (p.x + 1), p.y⟩, ⟨p.x, t.wrap (p.y - 1)⟩, ⟨p.x, t.wrap (p.y + 1)⟩] ∧
+      moore t p = .ok [⟨t.wrap (p.x - 1), p.y⟩, ⟨t.wrap (p.x + 1), p.y⟩, ⟨p.x, t.wrap (p.y - 1)⟩, ⟨p.x, t.wrap (p.y + 1)⟩,
+        ⟨t.wrap (p.x - 1), t.wrap (p.y - 1)⟩, ⟨t.wrap (p.x - 1), t.wrap (p.y + 1)⟩, ⟨t.wrap (p.x + 1), t.wrap (p.y - 1)⟩,
+        ⟨t.wrap (p.x + 1), t.wrap (p.y + 1)⟩] := by
+  simp [neumann, moore, pred, incr, htr]
+
+/-- on the edge of an `int` / `long` coordinate type the neighbour computation overflows (undefined; "no range checking is performed") -/
+theorem neighbours_edge_overflow (t : IntTy) (htr : t.trapping = true) (p : Pos)
+    (h : p.x = t.lo ∨ p.x = t.hi ∨ p.y = t.lo ∨ p.y = t.hi) :
+    neumann t p = .error .signedOverflow ∧ moore t p = .error .signedOverflow := by
+  have key : ∀ (a b c d : M Int), (a = .error .signedOverflow ∨ b = .error .signedOverflow ∨ c = .error .signedOverflow ∨ d = .error .signedOverflow) →
+      (∀ v, v = a ∨ v = b ∨ v = c ∨ v = d → v = .error .signedOverflow ∨ ∃ x, v = .ok x) →
+      (match a, b, c, d with
+        | .ok xm, .ok xp, .ok ym, .ok yp => (.ok [⟨xm, p.y⟩, ⟨xp, p.y⟩, ⟨p.x, ym⟩, ⟨p.x, yp⟩] : M (List Pos))
+        | .error e, _, _, _ => .error e
+        | _, .error e, _, _ => .error e
+        | _, _, .error e, _ => .error e
+        | _, _, _, .error e => .error e) = .error .signedOverflow ∧
+      (match a, b, c, d with
+        | .ok xm, .ok xp, .ok ym, .ok yp =>
+          (.ok [⟨xm, p.y⟩, ⟨xp, p.y⟩, ⟨p.x, ym⟩, ⟨p.x, yp⟩, ⟨xm, ym⟩, ⟨xm, yp⟩, ⟨xp, ym⟩, ⟨xp, yp⟩] : M (List Pos))
+        | .error e, _, _, _ => .error e
+        | _, .error e, _, _ => .error e
+        | _, _, .error e, _ => .error e
+        | _, _, _, .error e => .error e) = .error .signedOverflow := by
+    intro a b c d hone hall
+    have ha := hall a (Or.inl rfl)
+    have hb' := hall b (Or.inr (Or.inl rfl))
+    have hc := hall c (Or.inr (Or.inr (Or.inl rfl)))
+    have hd := hall d (Or.inr (Or.inr (Or.inr rfl)))
+    rcases ha with ha | ⟨xa, ha⟩ <;> rcases hb' with hb' | ⟨xb, hb'⟩ <;> rcases hc with hc | ⟨xc, hc⟩ <;> rcases hd with hd | ⟨xd, hd⟩ <;>
+      subst ha hb' hc hd <;> simp at hone ⊢
+  have hall : ∀ v, v = pred t p.x ∨ v = incr t p.x ∨ v = pred t p.y ∨ v = incr t p.y → v = .error .signedOverflow ∨ ∃ x, v = .ok x := by
+    intro v hv
+    rcases hv with rfl | rfl | rfl | rfl <;> (first | (unfold pred; split <;> simp) | (unfold incr; split <;> simp))
+  have hone : pred t p.x = .error .signedOverflow ∨ incr t p.x = .error .signedOverflow ∨ pred t p.y = .error .signedOverflow ∨
+      incr t p.y = .error .signedOverflow := by
+    rcases h with h | h | h | h
+    · left; unfold pred; simp [htr, h]; omega
+    · right; left; unfold incr; simp [htr, h]; omega
+    · right; right; left; unfold pred; simp [htr, h]; omega
+    · right; right; right; unfold incr; simp [htr, h]; omega
+  exact key _ _ _ _ hone hall
 
 /-- the four von Neumann neighbours are exactly the points at Manhattan distance 1, each once -/
 theorem neumann_spec (p q : Pos) : (q ∈ Spec.neumann p ↔ Spec.manhattan q p = 1) ∧ (Spec.neumann p).Nodup := by
@@ -371,9 +736,28 @@ theorem iterator_range_size (i j : Nat) (hij : i ≤ j) (hj : (j : Int) < 2 ^ 63
     simp [IntTy.InRange, IntTy.lo, IntTy.hi]; omega
   rw [IntTy.wrap_of_inRange _ (by decide) hin]; omega
 
+/-- `range::empty` / `range::singular` of an iterator range, `range::from_pair` -/
+theorem iter_range_empty_singular (i j : Nat) (hij : i ≤ j) :
+    ((iterMakeRange i j).empty = true ↔ j - i = 0) ∧ ((iterMakeRange i j).singular = true ↔ j - i = 1) ∧
+      iterFromPair (i, j) = iterMakeRange i j := by
+  refine ⟨?_, ?_, rfl⟩
+  · show (decide (i = j) = true ↔ j - i = 0)
+    rw [decide_eq_true_iff]; omega
+  · show ((!decide (i = j) && decide (i + 1 = j)) = true ↔ j - i = 1)
+    rw [Bool.and_eq_true, Bool.not_eq_true', decide_eq_false_iff_not, decide_eq_true_iff]; omega
+
+/-- `operator==` of two `iterator::range`s: both ends equal -/
+theorem iter_range_equal_iff (l r : IterRange) :
+    (l.equal r = true ↔ l = r) ∧ (l.notEqual r = true ↔ l ≠ r) ∧ l.equal l = true := by
+  cases l; cases r; simp [IterRange.equal, IterRange.notEqual]; omega
+
 /-- `math::int_range_count<N>` is `0, 1, …, N-1` -/
 theorem math_int_range_count_eq (n : Nat) : mathIntRangeCount n = List.range n := by
   simp [mathIntRangeCount]
+
+/-- `math::int_range<A, B>` is `A, A+1, …, B-1` -/
+theorem math_int_range_eq (a b : Nat) : (mathIntRange a b).map (fun (n : Nat) => (n : Int)) = Spec.iota a (b - a) := by
+  rw [iota_eq_map_range]; simp [mathIntRange]
 
 /-! ## Non-vacuity: the hypotheses are met by concrete, non-trivial values; boundary behaviour on literals -/
 
